@@ -4,6 +4,10 @@ from .model import ModelError
 
 self_ = S.P(0, "self")
 # default methods the conversion is built from, per trait
+# the default methods of the pinned tree (each is named by the rules of some property)
+KNOWN_DEFAULTS = {"Unit": {"from_symbol", "as_qty", "fmt"}, "LinearScaledUnit": {"from_scale", "is_ref_unit", "ratio"},
+                  "Quantity": {"iter_units", "unit_from_symbol", "eq", "partial_cmp", "add", "sub", "div", "fmt"},
+                  "HasRefUnit": {"unit_from_scale", "equiv_amount", "convert", "eq", "partial_cmp", "add", "sub", "div", "_fit"}}
 RELEVANT = {"HasRefUnit": {"equiv_amount", "convert"}, "LinearScaledUnit": {"ratio"}, "Quantity": set()}
 
 
@@ -153,6 +157,26 @@ def run_config(ctx, config):
             ctx.fail("override", "%s/%s/%s" % (config, what, tk),
                      "impl %s for %s overrides default item(s) %s with something other than the default specialised to this type — the generic analysis does not cover it" % (what, tk, extra) + ovequiv.reasons(ctx, config, tk, what, extra), imp["span"])
         ctx.ob("override", "%s/%s" % (config, what), True, "")
+    # 5b. helper defaults added later (not among the defaults the rules of any property name): every rule looks through
+    # them in the generic bodies, so a type that overrides one must override it with the default specialised to it
+    for trait, what in ((model.T_UNIT, "Unit"), (model.T_LSU, "LinearScaledUnit"), (model.T_QUANTITY, "Quantity"), (model.T_HRU, "HasRefUnit")):
+        t = U.trait_items.get(trait)
+        if t is None:
+            continue
+        defaults = {i["name"] for i in t["items"] if i.get("has_default") and i.get("kind") == "fn"}
+        helpers = defaults - KNOWN_DEFAULTS[what]
+        if not helpers:
+            continue
+        for imp in U.all_impls(trait):
+            names = [i["name"] for i in imp["items"] if i["name"] in helpers]
+            if not names:
+                continue
+            tk = model.ty_key(imp["self_ty"])
+            left = ovequiv.filter_equivalent(ctx, "helper-override", config, w, what, tk, names, imp)
+            if left:
+                ctx.fail("helper-override", "%s/%s/%s" % (config, what, tk),
+                         "impl %s for %s overrides the helper default(s) %s with something other than the default specialised to this type — "
+                         "the generic analyses look through the default" % (what, tk, left) + ovequiv.reasons(ctx, config, tk, what, left), imp["span"])
     # 6. scale tables total, finite, positive
     for q in w.qtypes:
         if q.kind not in ("ref", "dimless"):
